@@ -29,13 +29,14 @@ VARIABLES
   ended,      \* tokens of sessions that have ended in this incarnation
   stale,      \* named slack: datapath entries a listed known finding is allowed to leave behind
   relabel,    \* named slack: sessions that had an accepted modification creating or updating QERs (F-QER-RELABEL)
+  tainted,    \* C01: UP SEID tokens whose rules are unknown after a mutated message (their table entries are not judged)
   used,       \* ids of the listed known findings whose slack was actually needed so far
   tables,     \* observed BESS tables after the last consumed line
   cmds,       \* observed length of the command stream after the last consumed line
   snap,       \* guarded state snapshot taken with the last consumed line ([has |-> FALSE] if none)
   chk,        \* verdicts of the per-step checks of the last consumed line (record of booleans)
   last        \* summary of the last consumed line: [ev, kind, accepted, u]
-vars == <<l, alive, cfg, assoc, pfd, sess, ipHeld, teidHeld, ended, stale, relabel, used, tables, cmds, snap, chk, last>>
+vars == <<l, alive, cfg, assoc, pfd, sess, ipHeld, teidHeld, ended, stale, relabel, tainted, used, tables, cmds, snap, chk, last>>
 
 Dev(name) == name \in KnownDevs
 
@@ -113,7 +114,7 @@ UnknownSess(p, u) == u \notin DOMAIN sess \/ sess[u].peer # p
 (* steps *)
 Init ==
   /\ l = 1 /\ alive = FALSE /\ cfg = [dp |-> "none"] /\ assoc = EmptyFn /\ pfd = EmptyFn /\ sess = EmptyFn
-  /\ ipHeld = EmptyFn /\ teidHeld = EmptyFn /\ ended = {} /\ stale = {} /\ relabel = {} /\ used = {}
+  /\ ipHeld = EmptyFn /\ teidHeld = EmptyFn /\ ended = {} /\ stale = {} /\ relabel = {} /\ tainted = {} /\ used = {}
   /\ tables = EmptyTables /\ cmds = 0 /\ snap = NoSnap
   /\ chk = ChkOK /\ last = [ev |-> "init", kind |-> "-", accepted |-> FALSE, u |-> "-"]
   /\ InitHw /\ TLCSet(2, {})
@@ -361,7 +362,7 @@ InjectRespEv ==
 Relaxed == IF Dev("F-QER-RELABEL") THEN relabel ELSE {}
 ImageCheckApplies == (last.ev = "req" /\ last.kind \in {"estab", "mod", "del"} /\ last.accepted) \/ last.ev = "start"
 UsedNow ==
-  (IF ImageCheckApplies /\ ~TablesAreImage(tables, sess, stale, {}) /\ TablesAreImage(tables, sess, stale, Relaxed)
+  (IF ImageCheckApplies /\ ~TablesAreImage(tables, sess, stale, {}, tainted) /\ TablesAreImage(tables, sess, stale, Relaxed, tainted)
    THEN {"F-QER-RELABEL"} ELSE {})
   \cup (IF \E e \in stale : e \in tables.appQer \cup tables.sessQer THEN {"F-QER-RELABEL"} ELSE {})
 
@@ -372,9 +373,46 @@ EndEv ==
   /\ chk' = ChkOK /\ last' = [ev |-> "end", kind |-> "-", accepted |-> FALSE, u |-> "-"]
   /\ Advance
 
+\* C01: a mutated or garbage datagram was sent by peer e.peer.  Whatever it did to that peer's association and
+\* sessions is not constrained: they become tainted (their table entries are no longer judged) and the peer is
+\* treated as not associated.  The agent must survive and answer at most once.
+InjectEv ==
+  LET e == Trace[l]  p == e.peer IN
+  /\ e.ev = "inject"
+  /\ tainted' = tainted \cup SessOfPeer(p) \cup AsSet(e.newToks) \cup {e.resps[i].fseid : i \in 1..Len(e.resps)}
+  /\ sess' = Without(sess, SessOfPeer(p)) /\ ipHeld' = Without(ipHeld, SessOfPeer(p)) /\ teidHeld' = Without(teidHeld, SessOfPeer(p))
+  /\ assoc' = Without(assoc, {p}) /\ pfd' = Without(pfd, {p})
+  /\ relabel' = relabel \ SessOfPeer(p)
+  /\ UNCHANGED <<alive, cfg, ended, stale>>
+  /\ Obs(e)
+  /\ chk' = [ChkOK EXCEPT !.one = (Len(e.resps) <= 1)]
+  /\ last' = [ev |-> "inject", kind |-> "-", accepted |-> FALSE, u |-> "-"]
+  /\ Advance
+\* the harness cleans up after an injection (Association Release on the tainted peer): nothing is asserted
+CleanupEv ==
+  LET e == Trace[l] IN
+  /\ e.ev = "cleanup"
+  /\ tainted' = tainted \cup AsSet(e.newToks)
+  /\ UNCHANGED <<alive, cfg, assoc, pfd, sess, ipHeld, teidHeld, ended, stale, relabel>>
+  /\ Obs(e)
+  /\ chk' = ChkOK
+  /\ last' = [ev |-> "cleanup", kind |-> "-", accepted |-> FALSE, u |-> "-"]
+  /\ Advance
+\* the agent died at a crash site that is a listed known finding ("crash:<site>"); any other death is consumed by
+\* no action, so that the trace is rejected at this line
+DiedEv ==
+  LET e == Trace[l] IN
+  /\ e.ev = "died" /\ Dev("crash:" \o e.site)
+  /\ alive' = FALSE
+  /\ UNCHANGED <<cfg, assoc, pfd, sess, ipHeld, teidHeld, ended, stale, relabel, tainted, tables, cmds>>
+  /\ snap' = NoSnap /\ chk' = ChkOK /\ last' = [ev |-> "died", kind |-> "-", accepted |-> FALSE, u |-> "-"]
+  /\ Advance
+
+NotInject == UNCHANGED tainted
 Next == /\ l <= Len(Trace)
-        /\ (EndEv \/ StartEv \/ KillEv \/ HbEv \/ AssocEv \/ ReleaseEv \/ LostEv \/ ReportEv \/ PfdEv \/ EstabEv \/ ModEv \/ DelEv \/ InjectRespEv)
-        /\ used' = used \cup UsedNow      \* the state BEFORE this step (every trace ends with an "end" line)
+        /\ \/ InjectEv \/ CleanupEv \/ DiedEv
+           \/ NotInject /\ (EndEv \/ StartEv \/ KillEv \/ HbEv \/ AssocEv \/ ReleaseEv \/ LostEv \/ ReportEv \/ PfdEv \/ EstabEv \/ ModEv \/ DelEv \/ InjectRespEv)
+        /\ used' = used \cup UsedNow \cup (IF Trace[l].ev = "died" THEN {"crash:" \o Trace[l].site} ELSE {})      \* the state BEFORE this step (every trace ends with an "end" line)
         /\ TLCSet(2, used')
 Spec == Init /\ [][Next]_vars
 \* printed at the end: the listed findings that manifested (the check prints a KNOWN-FINDING line for each)
@@ -382,6 +420,9 @@ ReportUsed == PrintT(<<"USED", TLCGet(2)>>)
 
 ----------------------------------------------------------------------------
 (* invariants, named by property *)
+
+\* C01
+C01_AtMostOneResponsePerDatagram == last.ev = "inject" => chk.one
 
 \* C02
 C02_ExactlyOneResponse == chk.one
@@ -395,13 +436,13 @@ C02_FseidAddressesSession == chk.addressed
 
 \* C03
 AfterAcceptedSessionReq == last.ev = "req" /\ last.kind \in {"estab", "mod", "del"} /\ last.accepted
-C03_TablesAreImage == (AfterAcceptedSessionReq \/ last.ev = "start") => TablesAreImage(tables, sess, stale, Relaxed)
+C03_TablesAreImage == (AfterAcceptedSessionReq \/ last.ev = "start") => TablesAreImage(tables, sess, stale, Relaxed, tainted)
 C03_UnknownOrUnassociatedRejected == chk.mustReject
 C03_RejectedWritesNothing == chk.writesNothing
 C03_StartClearsLookupModules == chk.startEmpty
 
 \* C05 (BESS part): nothing of an ended session remains
-C05_NoDatapathResidue == (last.ev \in {"req", "lost", "report"}) => \A u \in ended : \A x \in tables.pdr \cup tables.far \cup tables.appQer \cup tables.sessQer : x.fseid # u \/ x \in stale
+C05_NoDatapathResidue == (last.ev \in {"req", "lost", "report"}) => \A u \in ended : \A x \in tables.pdr \cup tables.far \cup tables.appQer \cup tables.sessQer : x.fseid # u \/ x \in stale \/ u \in tainted
 
 C05_Applies == last.ev \in {"req", "lost", "report"}
 \* ... and everything allocated for it is returned (read from the guarded snapshot when the line carries one)
@@ -461,7 +502,7 @@ DbgSess(u) == [pdr |-> \E sq \in SessQerChoices(sess[u]) : PdrImageOK(tables.pdr
                all |-> \E sq \in SessQerChoices(sess[u]) : SessionImageOK(tables, u, sess[u], sq)]
 Dbg == IF AfterAcceptedSessionReq \/ last.ev = "start"
        THEN [bad |-> {<<u, DbgSess(u)>> : u \in {v \in DOMAIN sess : ~DbgSess(v).all}},
-             strays |-> {e.fseid : e \in {x \in tables.pdr \cup tables.far \cup tables.appQer \cup tables.sessQer : x.fseid \notin DOMAIN sess /\ x \notin stale}}]
+             strays |-> {e.fseid : e \in {x \in tables.pdr \cup tables.far \cup tables.appQer \cup tables.sessQer : x.fseid \notin DOMAIN sess /\ x \notin stale /\ x.fseid \notin tainted}}]
        ELSE [bad |-> {}, strays |-> {}]
 DbgQerEntry(e, q, dir) ==
   LET mbr == IF dir = "ul" THEN q.ulMbr ELSE q.dlMbr
